@@ -253,9 +253,9 @@ def check(ctx: Ctx) -> list[RuleResult]:
     # ---- R5 ---------------------------------------------------------------------------
     r5 = RuleResult("R5", "queue order key", "(priority, ..., unique counter) precede any unorderable element; smaller priority = more urgent", min_instances=2)
     sc = repo.func(f"{PC}.send_cmd")
-    puts = [n for n in own_nodes(sc.node) if isinstance(n, ast.Call) and isinstance(n.func, ast.Attribute) and n.func.attr == "put_nowait"]
+    puts = [n for n in own_nodes(sc.node) if isinstance(n, ast.Call) and isinstance(n.func, ast.Attribute) and n.func.attr in ("put_nowait", "put") and "_que" in norm(n.func.value)]
     if not puts:
-        raise AnalysisError("no put_nowait in send_cmd")
+        raise AnalysisError("no queue put in send_cmd")
     for pcall in puts:
         r5.instances += 1
         r5.nontrivial += 1
